@@ -2,6 +2,7 @@ SPECIFICATION Spec
 CONSTANTS
   ParentGasLimits = {1000700, 2000000}
   SlotDistances = {1}
+  Factored = TRUE
   RichTx = FALSE
   PairBodies = FALSE
 INVARIANTS CatalogueOK
